@@ -174,6 +174,22 @@ def side_value(node, raw_dig):
     return Val(node["id"], raw_dig, "side")
 
 
+def fed_value(nid, raw):
+    """What a store write 'feeds' into a linked source store (e.g. writing a
+    table also produces the report that a source node reads)."""
+    from model.core import canon, digest
+
+    return Val(nid, digest(canon(raw)), "fed")
+
+
+def derived_stores(world):
+    """Stores whose content is produced by the plan itself (side-effect
+    writers, stores fed by another store's write): not pure sources."""
+    out = {n["writes"] for n in world["nodes"] if n.get("writes")}
+    out |= {sd["feeds"] for sd in world.get("stores", {}).values() if sd.get("feeds")}
+    return out
+
+
 def norm(world, store_name, v):
     fl = world["stores"][store_name]["flavour"]
     return Norm(v) if fl == "norm" else v
@@ -207,6 +223,9 @@ def evaluate(world, objs, sources=None):
             stores[n["writes"]] = side_value(n, raw.dig if isinstance(raw, Val) else str(raw))
         if n.get("store"):
             stores[n["store"]] = raw
+            fed = world["stores"][n["store"]].get("feeds")
+            if fed:
+                stores[fed] = fed_value(i, raw)
             seen_map[i] = norm(world, n["store"], raw)
         else:
             seen_map[i] = raw
